@@ -79,19 +79,16 @@ impl TorrentSummary {
     }
 
     if let Some(creation_date) = self.metainfo.creation_date {
-      #[allow(clippy::as_conversions)]
-      table.row(
-        "Creation Date",
-        Utc
-          .timestamp_opt(
-            creation_date
-              .min(i64::MAX as u64)
-              .try_into()
-              .invariant_unwrap("min with i64 is always valid i64"),
-            0,
-          )
-          .unwrap(),
-      );
+      let date = i64::try_from(creation_date)
+        .ok()
+        .and_then(|seconds| Utc.timestamp_opt(seconds, 0).single());
+
+      // Dates outside of the representable calendar range are shown as the
+      // raw number of seconds.
+      match date {
+        Some(date) => table.row("Creation Date", date),
+        None => table.row("Creation Date", creation_date),
+      }
     }
 
     if let Some(created_by) = &self.metainfo.created_by {
